@@ -6,6 +6,7 @@ over every finite operation history `ops : List Op` (add, re-add, remove, pop,
 peek smallest/largest, empty, clear, iteration) and every priority/task value.
 -/
 import Sc3Verif.C09.Lemmas
+import Sc3Verif.C09.UsersLemmas
 namespace Sc3Verif.C09
 
 /-- States the real queue can be in: reached from the empty queue by any history. -/
@@ -161,4 +162,91 @@ example : Reachable (TQ.init.run exampleOps).1 := ⟨exampleOps, rfl⟩
 example : (TQ.init.run [.add 1 0, .add 2 1, .add 2 2]).1.drain
     (fun t => if t = 0 then [.add 1 3, .add 5 2] else []) 10 = [0, 3, 1, 2] := by decide
 
+/-! ### users of the queue: the non-real-time scheduler (`ClockScheduler`) -/
+
+/-- scheduler states reached from the empty scheduler by any history of `add` (a new or an
+    already pending clock task), loop iterations of `run`, tempo changes (`retime`) -/
+def CSReachable (k : Nat → Nat) (c : CS) : Prop := ∃ ops : List CSOp, c = (CS.init.run k ops).1
+
+theorem cs_reachable_inv {k : Nat → Nat} {c : CS} (h : CSReachable k c) : CSInv k c := by
+  obtain ⟨ops, rfl⟩ := h; exact (cs_run_refines (csinv_init k) ops).2.2
+
+/-- MAIN (scheduler): for every history, queue + `_pending` dict behave as the sorted list in
+    which adding a clock task first drops the entry of its (clock, task) key, and a tempo change
+    re-inserts the tasks of the clock one after the other in queue order. -/
+theorem scheduler_refines (k : Nat → Nat) (ops : List CSOp) :
+    (CS.init.run k ops).2 = (KS.run k [] ops).2 ∧ (CS.init.run k ops).1.q.iter = (KS.run k [] ops).1 :=
+  let r := cs_run_refines (csinv_init k) ops; ⟨r.1, r.2.1⟩
+
+/-- the scheduler's queue is sorted by time and a task has one entry per clock -/
+theorem scheduler_sorted_one_entry_per_key {k : Nat → Nat} {c : CS} (h : CSReachable k c) :
+    SQ.Sorted c.q.iter ∧ ((c.q.iter.map Prod.snd).map k).Nodup :=
+  ⟨iterL_sorted (cs_reachable_inv h).inv.sorted, csinv_keys_nodup (cs_reachable_inv h)⟩
+
+/-- every loop iteration of `run` wakes the earliest entry (first in, first out among equals) -/
+theorem scheduler_pop_is_head {k : Nat → Nat} {c : CS} (h : CSReachable k c) :
+    (c.pop k).2 = c.q.iter.head? ∧ (c.pop k).1.q.iter = c.q.iter.tail :=
+  let r := cs_pop_spec (cs_reachable_inv h); ⟨r.1, r.2.1⟩
+
+/-- scheduling a task that is already pending on that clock (same key, another clock-task
+    object) leaves exactly one entry for the key: the new one, at its time, latest among equals -/
+theorem scheduler_add_replaces_key {k : Nat → Nat} {c : CS} (h : CSReachable k c) (time : Int) (ct : Nat) :
+    (c.add k time ct).q.iter = SQ.insert time ct (c.q.iter.filter fun x => k x.2 != k ct) :=
+  (cs_add_spec (cs_reachable_inv h) time ct).1
+
+/-- A tempo change keeps the queue order of the re-timed tasks wherever the new times allow it:
+    if `a` is before `b` and the new time of `a` is not later than that of `b` (in particular:
+    equal new times, e.g. two tasks on the same beat), `a` is still before `b`. -/
+theorem retime_keeps_queue_order {k : Nat → Nat} {c : CS} (h : CSReachable k c) (f : Nat → Option Int)
+    (a b : Nat) (ta tb : Int) (hab : [a, b].Sublist (c.q.iter.map Prod.snd))
+    (hfa : f a = some ta) (hfb : f b = some tb) (hle : ta ≤ tb) :
+    [a, b].Sublist ((c.retime f).q.iter.map Prod.snd) := by
+  have hi := cs_reachable_inv h
+  have habs := (cs_retime_spec hi f).1
+  show [a, b].Sublist (ids (c.retime f).q.abs)
+  rw [habs]
+  have hnd : (ids c.q.abs).Nodup := by have := hi.inv.nodup; rw [← TQ.abs_eq] at this; exact this
+  exact retime_claim1 f hfa hfb hle c.q.abs c.q.abs hnd hab (iterL_sorted hi.inv.sorted)
+
+/-- a tempo change loses and duplicates nothing -/
+theorem retime_same_tasks {k : Nat → Nat} {c : CS} (h : CSReachable k c) (f : Nat → Option Int) (t : Nat) :
+    t ∈ (c.retime f).q.iter.map Prod.snd ↔ t ∈ c.q.iter.map Prod.snd := by
+  have hi := cs_reachable_inv h
+  show t ∈ ids (c.retime f).q.abs ↔ t ∈ ids c.q.abs
+  rw [(cs_retime_spec hi f).1]
+  exact ids_retimeFold f c.q.abs c.q.abs (fun y hy => List.mem_map_of_mem hy) t
+
+/-! ### users of the queue: score entries (`OscScore`) -/
+
+/-- what `finish` lists is the stable insertion of the bundles in the order they were added -/
+theorem score_listing (times : List Int) :
+    (Score.init.addAll times).listing = stableByTime times.zipIdx :=
+  (score_addAll_spec times ⟨inv_init, by intro t ht; simp [Score.init, TQ.init, TQ.abs, TQ.iter, ids] at ht⟩).1
+
+/-- non-decreasing time, and every added bundle exactly once (also byte-identical ones: the
+    entries are the objects, not their contents) -/
+theorem score_sorted_each_once (times : List Int) :
+    SQ.Sorted (Score.init.addAll times).listing ∧ (Score.init.addAll times).listing.Perm times.zipIdx := by
+  rw [score_listing]
+  refine ⟨insertAll_sorted _ _ List.Pairwise.nil, ?_⟩
+  have := insertAll_perm times.zipIdx []
+  simpa [stableByTime] using this
+
+/-- first in, first out: a bundle added before another one with a time not later is listed first -/
+theorem score_fifo (times : List Int) (x y : Int × Nat) (h : [x, y].Sublist times.zipIdx)
+    (hle : x.1 ≤ y.1) : [x.2, y.2].Sublist ((Score.init.addAll times).listing.map Prod.snd) := by
+  rw [score_listing]
+  exact insertAll_fifo _ [] List.Pairwise.nil x y h hle
+
+/-! Non-vacuity (scheduler): tasks 0,1 of clock key 0/1 on one beat, task 0 re-scheduled by a new
+    clock task 2 with the same key, then a tempo change. -/
+def exKey (ct : Nat) : Nat := if ct = 2 then 0 else ct
+def exCSOps : List CSOp := [.add 4 0, .add 4 1, .add 4 3, .add 4 2, .iter, .retime [(1, 2), (2, 2), (3, 2)], .iter, .pop]
+example : (CS.init.run exKey exCSOps).2 =
+    [.unit, .unit, .unit, .unit, .items [(4, 1), (4, 3), (4, 2)], .unit, .items [(2, 1), (2, 3), (2, 2)],
+     .item (some (2, 1))] := by decide
+example : CSReachable exKey (CS.init.run exKey exCSOps).1 := ⟨exCSOps, rfl⟩
+example : (Score.init.addAll [2, 1, 2, 1]).listing = [(1, 1), (1, 3), (2, 0), (2, 2)] := by decide
+
 end Sc3Verif.C09
+
